@@ -1,6 +1,7 @@
 package checks
 
 import (
+	"strings"
 	"fmt"
 	"testing"
 
@@ -79,6 +80,19 @@ func TestC05Decode(t *testing.T) {
 	rec := evidence.For("C05")
 	names := docs.SingleKeyNames()
 	rapidCheck(t, func(t *rapid.T) {
+		if rapid.IntRange(0, 3).Draw(t, "multikey") == 0 {
+			// MGET/DEL/MSET: every key must be filed under (and travel in the fragment of) its own specification slot
+			r := genMultiKeyReq(t, 12, []string{"mget", "del", "mset"})
+			slots, dup, multi := mkClassify(&r)
+			c := c06DecCase{Req: r}
+			rec.CaseKey(fnv64(r.Encode())^0x0506, slots >= 2 && (dup || multi), func() interface{} { return c }, "dec-multikey-request")
+			ds := c06DecodeExec(&r)
+			for i := range ds {
+				ds[i].Sig = "C05/multikey-" + strings.TrimPrefix(ds[i].Sig, "C06/")
+			}
+			report(t, "C05", &c, ds)
+			return
+		}
 		name := rapid.SampledFrom(names).Draw(t, "name")
 		var key []byte
 		if rapid.IntRange(0, 2).Draw(t, "long") == 0 {
